@@ -594,6 +594,12 @@ async fn run_spec(spec: &Spec, real_time: bool) -> Out {
 	macro_rules! bad {
 		($sig:expr, $($arg:tt)*) => { out.violations.push(($sig.to_string(), format!($($arg)*))) };
 	}
+	// Real-time runs (stress / ThreadSanitizer sub-runs): "something did not arrive" is no verdict after 300 ms on a loaded
+	// machine. If the only complaints are of that kind, the frames are collected again two seconds later, up to five times;
+	// the counters of a discarded evaluation are rolled back. (Virtual-time runs are quiescent by construction: one pass.)
+	let mut attempt = 0;
+	let base = (out.violations.len(), out.history.len(), out.notifications, out.sends_ok, out.sends_failed, out.closes, out.sends_after_close);
+	'oracle: loop {
 	let all_frames: Vec<Vec<FrameEv>> = frames.iter().map(|f| f.lock().unwrap().clone()).collect();
 	let stopped = *stopped_ticket.lock().unwrap();
 	for (i, s) in spec.subs.iter().enumerate() {
@@ -738,6 +744,19 @@ async fn run_spec(spec: &Spec, real_time: bool) -> Out {
 				}
 			}
 		}
+	}
+	let absent_only = out.violations.len() > base.0
+		&& out.violations[base.0..].iter().all(|(s, _)| s.starts_with("closing-notification-missing/") || s.starts_with("successful-send-lost/") || s.starts_with("notification-without-accept-response/"));
+	if real_time && absent_only && attempt < 5 {
+		attempt += 1;
+		out.violations.truncate(base.0);
+		out.history.truncate(base.1);
+		(out.notifications, out.sends_ok, out.sends_failed, out.closes, out.sends_after_close) = (base.2, base.3, base.4, base.5, base.6);
+		tokio::time::sleep(Duration::from_secs(2)).await;
+		pump(&writers, &frames).await;
+		continue 'oracle;
+	}
+	break;
 	}
 	out
 }
